@@ -422,7 +422,7 @@ Definition cond_succs (next t : Z) (e : expr) : list (Z * option expr) :=
 Definition mirror_succ (m : mode) (addr len : Z) (i : instr) : list (Z * option expr) :=
   match i with
   | IJmpRel t => [(t, None)]
-  | IRet _ | IRet0 | IJmpInd _ | ICallInd _ => []
+  | IRet _ | IRet0 | IJmpInd _ => []
   | IJcc c t => match cc_condition c with Ok e => cond_succs (addr + len) t e | _ => [] end
   | IJcxz csz t => match jcxz_cond m csz with Ok e => cond_succs (addr + len) t e | _ => [] end
   | ILoop k t => match loop_cond m k with Ok e => cond_succs (addr + len) t e | _ => [] end
@@ -439,6 +439,21 @@ Definition diamond (addr : Z) (c : expr) (ops2 : list operation) : cfg :=
   mkcfg [mkblock 0 1 [mkinstr 0 (ONop None) (Some addr)] []; mkblock 1 0 [] [];
          mkblock 2 (Z.of_nat (length ops2)) (number_ops addr 0 ops2) []]
         [mkedge 0 1 (Some (not_cond c)); mkedge 0 2 (Some c); mkedge 2 1 None] 3 (Some 0) (Some 1).
+(* the four-block graph of cmovcc r32 in long mode: head --c--> body2 --> exit, head --not c--> body3 --> exit *)
+Definition diamond4 (addr : Z) (c : expr) (ops2 ops3 : list operation) : cfg :=
+  mkcfg [mkblock 0 1 [mkinstr 0 (ONop None) (Some addr)] []; mkblock 1 0 [] [];
+         mkblock 2 (Z.of_nat (length ops2)) (number_ops addr 0 ops2) [];
+         mkblock 3 (Z.of_nat (length ops3)) (number_ops addr 0 ops3) []]
+        [mkedge 0 2 (Some c); mkedge 0 3 (Some (not_cond c)); mkedge 2 1 None; mkedge 3 1 None] 4 (Some 0) (Some 1).
+(* cmovcc: the move (with the load of a memory source) sits in the guarded block; a 32-bit destination in long mode is
+   rewritten with itself (zero-extension) when the condition is false *)
+Definition lift_cmov (m : mode) (addr : Z) (c : cc) (sz dst : Z) (src : operand) : res cfg :=
+  e <- cc_condition c ;;
+  la <- opl m sz src ;;
+  st <- ost m sz (OReg dst) (snd la) ;;
+  if (match m with M64 => true | M32 => false end) && (sz =? 32) then
+    d <- opv m sz (OReg dst) ;; st3 <- ost m sz (OReg dst) d ;; Ok (diamond4 addr e (fst la ++ st) st3)
+  else Ok (diamond addr e (fst la ++ st)).
 Definition branch_nop (m : mode) (t : Z) : operation := ONop (Some (OBranch (expr_const t (wordsz m)))).
 
 (* ret (imm = -1 here: no operand) / ret imm16: temp := load(sp); sp := sp + word; (sp := sp + imm;) branch temp *)
@@ -454,7 +469,17 @@ Definition lift_jmp_ind (m : mode) (src : operand) : res (list operation) :=
 Definition lift_loop (m : mode) : res (list operation) :=
   cx <- opv m (wordsz m) (OReg 1) ;; d <- mk_bin Sub cx (expr_const 1 (wordsz m)) ;; ops_store m (wordsz m) (OReg 1) d.
 
-Definition mirror_instr (m : mode) (addr : Z) (i : instr) : option (res cfg) :=
+(* call: (operand_load of the target;) push the return address; branch.  A stack-pointer register target is copied to
+   temp 0 first (it is read before the push) *)
+Definition lift_call (m : mode) (next : Z) (tgt : res (list operation * expr)) (sp_target : bool) : res (list operation) :=
+  let w := wordsz m in let sp := EScalar (sp_scalar m) in
+  la <- tgt ;;
+  let sv := if sp_target then [OAssign (temp_k 0 w) (snd la)] else [] in
+  let te := if sp_target then EScalar (temp_k 0 w) else snd la in
+  nsp <- mk_bin Sub sp (expr_const (w / 8) w) ;;
+  Ok (fst la ++ sv ++ [OStore nsp (expr_const next w); OAssign (sp_scalar m) nsp; OBranch te]).
+
+Definition mirror_instr (m : mode) (addr len : Z) (i : instr) : option (res cfg) :=
   let wrap (r : res (list operation)) : res cfg := ops <- r ;; Ok (one_block addr ops) in
   match i with
   | IMov sz dst src => if isreg dst && regimm src then Some (wrap (lift_mov m sz dst src))
@@ -475,6 +500,10 @@ Definition mirror_instr (m : mode) (addr : Z) (i : instr) : option (res cfg) :=
   | IImul3 sz dst src imm => if isreg src || (is_mem src && opnd_mirrored m src) then Some (wrap (lift_imul m sz dst src (OImm imm))) else None
   | IShift o sz dst cnt => if (isreg dst || (is_mem dst && opnd_mirrored m dst)) && regimm cnt then option_map wrap (lift_shift_any m o sz 8 dst cnt) else None
   | IShift1 o sz dst => if isreg dst || (is_mem dst && opnd_mirrored m dst) then option_map wrap (lift_shift_any m o sz sz dst (OImm 1)) else None
+  | ICallRel t => Some (wrap (lift_call m (addr + len) (Ok ([], expr_const t (wordsz m))) false))
+  | ICallInd src => if isreg src || (is_mem src && opnd_mirrored m src)
+                    then Some (wrap (lift_call m (addr + len) (opl m (wordsz m) src) (match src with OReg 4 => true | _ => false end))) else None
+  | ICmov c sz dst src => if isreg src || (is_mem src && opnd_mirrored m src) then Some (lift_cmov m addr c sz dst src) else None
   | IJmpRel t => Some (Ok (one_block addr [branch_nop m t]))
   | IJmpInd src => if isreg src || (is_mem src && opnd_mirrored m src) then Some (wrap (lift_jmp_ind m src)) else None
   | IRet imm => if 0 <=? imm then Some (wrap (lift_ret m imm)) else None
